@@ -352,6 +352,19 @@ C20Year ==
                ELSE Chk("C20.zodiac", << k, x.z >>, x.z = XingZuo[ZodiacOf(x.m, x.d) + 1] /\ x.z2 = x.z)
                     + Chk("C20.festivals", << k, x.f >>, SeqSet(x.f) = ExpectedFestivals(e.y, x.m, x.d) /\ Len(x.f) = Cardinality(SeqSet(x.f)))
                     + Chk("C20.otherFestivals", << k, x.o >>, x.o = OtherOf(x.m, x.d))
+                    \* the one-line description names the same festivals and the same sign: date, time, [leap year], weekday,
+                    \* "(festival)" ..., "(other festival)" ..., sign + 座
+                    + (IF Has(x, "full")
+                         THEN LET F == x.full
+                                  lp == IF IsLeap(e.y) THEN 1 ELSE 0
+                                  nf == Len(x.f) + Len(x.o)
+                              IN Chk("C20.description", << k, F >>,
+                                     /\ Len(F) = 4 + lp + nf
+                                     /\ (lp = 1 => F[3] = "闰年")
+                                     /\ \A i \in 1..Len(x.f) : F[3 + lp + i] = "(" \o x.f[i] \o ")"
+                                     /\ \A i \in 1..Len(x.o) : F[3 + lp + Len(x.f) + i] = "(" \o x.o[i] \o ")"
+                                     /\ F[Len(F)] = x.z \o "座")
+                         ELSE 0)
                     + (IF Has(x, "ny")
                          THEN Chk("C20.derived-object", << k, x.ny, x.nz, x.nf >>,
                                   /\ ValidYmd(x.ny[1], x.ny[2], x.ny[3])
